@@ -368,15 +368,16 @@ func (cr *ChunkReader) parseChunkHeaderBytes(header []byte, l *int) (int64, stri
 	rdr := bufio.NewReader(bytes.NewReader(header))
 
 	// After the first chunk each chunk header should start
-	// with "\n\r\n"
-	if !cr.isFirstHeader && stashLen == 0 {
+	// with "\r\n". These two bytes stay in front of the header until it
+	// has been parsed completely, so that a header that has to wait for
+	// the next read is stashed from its very first byte
+	skip := 0
+	if !cr.isFirstHeader {
 		err := readAndSkip(rdr, '\r', '\n')
 		if err != nil {
 			return cr.handleRdrErr(err, header)
 		}
-
-		copy(header, header[2:])
-		*l = *l - 2
+		skip = 2
 	}
 
 	// read and parse the chunk size
@@ -473,10 +474,10 @@ func (cr *ChunkReader) parseChunkHeaderBytes(header []byte, l *int) (int64, stri
 		return cr.handleRdrErr(err, header)
 	}
 
-	ind := bytes.Index(header, []byte{'\r', '\n'})
+	ind := bytes.Index(header[skip:], []byte{'\r', '\n'})
 	cr.isFirstHeader = false
 
-	return chunkSize, sig, ind + len(chunkHdrDelim) - stashLen, nil
+	return chunkSize, sig, skip + ind + len(chunkHdrDelim) - stashLen, nil
 }
 
 // Stashes the header in cr.stash and returns "errskipHeader"
